@@ -77,7 +77,7 @@ impl SweepBase {
             return (vec![DiskFault::DupBlock { at: s as u32, len: l as u32 }], rd(), "sweep:dup_span");
         }
         k -= self.spans.len();
-        let raw = |err, early_eof| ReaderCfg { stack: RStack::Raw, chunks: vec![5], eintr_at: vec![], err, early_eof, eintr_at_eof: 0, err_after_eof: None };
+        let raw = |err, early_eof| ReaderCfg { stack: RStack::Raw, chunks: vec![5], eintr_at: vec![], err, early_eof, eintr_at_eof: 0, err_after_eof: None, open_err: None };
         let which = k / (len + 1);
         let at = (k % (len + 1)) as u32;
         match which {
